@@ -490,7 +490,15 @@ func opName(pool *c05Pool, op int) string {
 func runC05History(ctx *Ctx, p int, firstOp int) {
 	pool, err := buildC05Pool(ctx.Seed, ctx.Tier, p)
 	if err != nil {
-		ctx.Count("pools_skipped", 1)
+		if strings.Contains(err.Error(), "not encodable") {
+			ctx.Count("pools_skipped", 1)
+			return
+		}
+		// building, marshalling or re-loading a valid stream failed: that is
+		// a round-trip failure, not a reason to skip
+		if firstOp == 0 {
+			ctx.Violate("C05/pool-stream-unusable", map[string]interface{}{"pool": p, "error": err.Error()})
+		}
 		return
 	}
 	// all sequences of length 1..3 starting with firstOp
